@@ -21,7 +21,7 @@ MANIFEST = {
             "Peer selection, helper arithmetic and the handlers are tied to the Go code by running both on all small multisets of "
             "peer tips / random peer sets and on random responder chains (cache sizes 1..515, removed blocks, heights near 2^32, "
             "malformed requests); every implementation answer is also checked against the declarative oracle.",
-    "note": "Six genuine defects repaired (the sixth: block sync banned the sender instead of the serving peer); five of them: in /repo (most-frequent-ID loop never updated max; uint32 overflow of height+103 in the "
+    "note": "Seven genuine defects repaired (the seventh: downloader pace/burst above the p2p rate limit penalised honest peers). Six earlier (the sixth: block sync banned the sender instead of the serving peer); five of them: in /repo (most-frequent-ID loop never updated max; uint32 overflow of height+103 in the "
             "GetBlocksFromID handler; fast-sync restore overwrote the saved original blocks; downloader hung / grew without bound on "
             "empty or repeated answers; stale temp blocks broke a later fast-sync restore). The convergence model is tied to fast_sync.go / block_sync.go / download.go by "
             "running the real Syncer of one node against a scripted peer over loopback libp2p (honest, truncated, corrupted, lying "
@@ -93,8 +93,8 @@ def sync_term(r):
     e = {"ok": 0, "err": 1, "invalid": 2}[r["ending"]]
     common = "None" if r["common"] is None else "(Some %d)" % r["common"]
     pairs = lambda l: clist(l, lambda x: "(%d, %d)" % tuple(x))
-    obs = "(%s, %s, %s, %s, %s, %s)" % (clist(r["after"]), cbool(r["banned"]), cbool(bool(r["err"])), pairs(r["tempafter"]),
-                                       cbool(r["lowdeleted"]), cbool(r["dbequal"]))
+    obs = "(%s, %s, %s, %s, %s, %s, %d, %d)" % (clist(r["after"]), cbool(r["banned"]), cbool(bool(r["err"])), pairs(r["tempafter"]),
+                                               cbool(r["lowdeleted"]), cbool(r["dbequal"]), max(r.get("penown", 0), 0), max(r.get("penpeer", 0), 0))
     truth = "(%s, %s, %d, %s, %s, %s)" % (cbool(r["honest"]), cbool(r["better"]), r["forkh"], clist(r["peerchain"]),
                                           cbool(not r["spec"].get("sender")), cbool(r.get("genisvalidator", True)))
     return "(%d, %d, %d, (%d)%%Z, %s, %s, %d, %s, %s, %d, %s, %s, %s)" % (
@@ -165,7 +165,7 @@ def evaluate(ck, recs):
             ck.nontrivial(("sync", r.get("phase", 1), r["kind"], sp["n"], sp["prefix"], sp["own"], sp["peer"], sp["full"], sp["hcb"],
                            sp["corrupt"], sp["corruptkind"] if sp["corrupt"] >= 0 else "", sp["errafter"], sp.get("stall", ""),
                            sp.get("own2", 0), sp.get("corrupt2", -1), sp.get("errafter2", -1), bool(r.get("tempbefore")), bool(sp.get("sender")),
-                           sp.get("sendershare", 0), sp.get("forkmode", ""), bool(sp.get("recent")), r["better"], r["ownh"] > r["blockh"], bool(sp.get("nonvalidator"))))
+                           sp.get("sendershare", 0), sp.get("forkmode", ""), bool(sp.get("recent")), r["better"], r["ownh"] > r["blockh"], bool(sp.get("nonvalidator")), sp.get("batch", 0), sp.get("slowfirst", 0)))
             if code != 0:
                 add_failure(ck, "sync", code,
                             "sync run: node did not end on the honest better peer's chain / failed fast sync did not restore the "
@@ -227,7 +227,7 @@ def run(ck):
     if ck.tier == "quick":
         args = ["-bestlen", "4", "-bestrand", "300", "-runs", "12", "-handlers", "120", "-gap", "500", "-sync", "60"]
     else:
-        args = ["-bestlen", "5", "-bestrand", "5000", "-runs", "40", "-handlers", "1500", "-gap", "20000", "-sync", "1500"]
+        args = ["-bestlen", "5", "-bestrand", "5000", "-runs", "40", "-handlers", "1500", "-gap", "20000", "-sync", "1500", "-synclong", "2"]
     r1 = ck.run_harness(binp, args)
     if r1 is None:
         return
